@@ -1,6 +1,7 @@
 package harness
 
 import (
+	"encoding/binary"
 	"fmt"
 	"reflect"
 	"strings"
@@ -199,6 +200,32 @@ func e2eHarness(rc *RunCtx) {
 					return 0
 				}
 				return time.Duration(tp.Intn("net", 4)) * time.Millisecond
+			}
+		}
+		if env.kind == "adapter" && tp.Intn("reconn", 6) == 5 && env.tr.IsOpen() {
+			// an earlier connection died in the middle of a reply and the same transport was opened again (by its
+			// monitor, by the application): nothing of the dead connection may reach into this one
+			rc.Fault("connection-lost-mid-frame-then-reopened")
+			partial := make([]byte, 4+tp.Intn("reconn", 40))
+			binary.BigEndian.PutUint32(partial, uint32([]int{50, 5000, 70000}[tp.Intn("reconn", 3)]))
+			ch := env.tr.Closed()
+			env.streams[0].PeerWrite(partial)
+			env.streams[0].PeerEnd(nil)
+			simrt.Recv(simrt.HarnessSite("e2e.wait-closed"), ch)
+			settle(time.Second)
+			if err := env.tr.Open(); err != nil {
+				infra = "reopen: " + err.Error()
+				finished = true
+				return
+			}
+		}
+		if env.kind == "adapter" && len(env.streams) > 1 && tp.Intn("unkoneway", 5) == 1 {
+			// a newer client on the same connection sends a oneway this server does not know (nobody waits for an
+			// answer, none is due): the requests that follow on the connection are served as if it had not been there
+			rc.Fault("unknown-oneway-ahead-of-the-calls")
+			for i, n := 0, 1+tp.Intn("unkoneway", 2); i < n; i++ {
+				env.streams[1].PeerWrite(EncodeFrame(map[string]string{"_opid": fmt.Sprint(770000 + i), "_cid": "newer-client", "_timeout": "5000"},
+					rawMessage(env.proto, "notifyV2", thrift.ONEWAY, []rawField{{1, thrift.STRING, "event-" + genString(tp, "val", 20)}, {2, thrift.I32, int32(7)}})))
 			}
 		}
 		for _, sp := range addSpec {
